@@ -21,7 +21,7 @@ var solvers = []solver{
 	{"z3-new", func(t int) []string { return []string{"z3-new", "-in", fmt.Sprintf("-t:%d", t)} }},
 	{"z3", func(t int) []string { return []string{"z3", "-in", fmt.Sprintf("-t:%d", t)} }},
 	{"cvc5", func(t int) []string {
-		return []string{"cvc5", "--lang=smt2", "--incremental", fmt.Sprintf("--tlimit-per=%d", t), "-"}
+		return []string{"cvc5", "--lang=smt2", "--incremental", "--strings-exp", fmt.Sprintf("--tlimit-per=%d", t), "-"}
 	}},
 }
 
@@ -147,54 +147,43 @@ func classify(ob *Obligation, ans string) {
 	}
 }
 
+// retry races all solvers on the standalone script of one obligation; the first definite answer wins.
 func retry(r *FnResult, ob *Obligation, o solveOpts) {
 	script := r.Enc.single(ob)
-	for pass := 0; pass < 2; pass++ {
-		for i := range solvers {
-			s := &solvers[i]
-			sc := script
-			if pass == 1 {
-				sc = script + "(get-model)\n"
-			}
-			tm := o.timeoutMs * 2
-			ans, raw, secs := runSolver(s, sc, tm, 1)
-			if strings.Contains(raw, "(error") && len(ans) == 0 {
-				continue
-			}
+	type res struct {
+		s        *solver
+		ans, raw string
+		secs     float64
+	}
+	ch := make(chan res, len(solvers))
+	for i := range solvers {
+		s := &solvers[i]
+		go func() {
+			ans, raw, secs := runSolver(s, script+"(get-model)\n", o.timeoutMs, 1)
 			a := "unknown"
 			if len(ans) > 0 {
 				a = ans[0]
 			}
-			if a == "unsat" {
-				classify(ob, a)
-				ob.Solver = s.name
-				ob.Secs = secs
-				return
+			if strings.Contains(raw, "(error") && len(ans) == 0 {
+				a = "error"
 			}
-			if a == "sat" && ob.Kind != "cover" {
-				classify(ob, a)
-				ob.Solver = s.name
-				ob.Secs = secs
-				if pass == 0 {
-					// fetch a model
-					_, raw2, _ := runSolver(s, script+"(get-model)\n", tm, 1)
-					ob.Model = trimModel(raw2)
-				} else {
-					ob.Model = trimModel(raw)
-				}
-				if o.keepDir != "" {
-					_ = os.MkdirAll(o.keepDir, 0o755)
-					_ = os.WriteFile(filepath.Join(o.keepDir, shortName(ob.Name)+".smt2"), []byte(script), 0o644)
-				}
-				return
-			}
-			if a == "sat" && ob.Kind == "cover" {
-				classify(ob, a)
-				return
-			}
+			ch <- res{s, a, raw, secs}
+		}()
+	}
+	decided := false
+	for range solvers {
+		x := <-ch
+		if decided {
+			continue
 		}
-		if pass == 0 {
-			break
+		if x.ans == "unsat" || (x.ans == "sat" && ob.Kind != "cover") || (x.ans == "sat" && ob.Kind == "cover") {
+			classify(ob, x.ans)
+			ob.Solver = x.s.name
+			ob.Secs = x.secs
+			if x.ans == "sat" && ob.Kind != "cover" {
+				ob.Model = trimModel(x.raw)
+			}
+			decided = true
 		}
 	}
 	if o.keepDir != "" && ob.Status != "discharged" {
